@@ -80,6 +80,13 @@ CLAIMED["C01"] = dict(
    ref="DESIGN.md §4 C01")
 
 
+CLAIMED["C04"] = dict(
+   text="Decides month / year addition structurally, for all dates and all signed counts: in __ymd_add_m, __ymcw_add_m and __bizda_add_m the carry starts as month + n, one turn of every loop leaves 12*year + carry unchanged (linear effect of the loop body) and the month is set from the carry, so 12*year + month moves by exactly n; the stored month lies in 1..12 for every input month 1..12 and every n (interval analysis); the five year adders add exactly n to the year; month / year adders write only year and month (ywd: year and the derived hang) and reach no fixup, so the day is kept and steps within one invocation compose; each fixup (__ymd_, __ymcw_, __ywd_, __yd_fixup) writes only its field, stores the maximum only where the field exceeds it (difference bound from the guard) and skips only values that every period has (28, 4, 52, 365); dt_dfixup hands every calendar to its fixup; the fixup dominates every converter call in dt_dconv and every read of the date part in dt_strfdt.",
+   note="The clamp targets (__get_mdays, __get_mcnt, __get_isowk, __get_ydays) are computed values: their tables are decided under C01, their arithmetic is not. A month adder rewritten without loops is reported as undecided (exit 2) unless the interval rule finds a month outside 1..12. Assumes results inside the 12-bit year field.",
+   technique="static analysis: linear loop-invariant check by symbolic effect of loop bodies, interval / difference-bound abstract interpretation, write-set (effect) analysis, call-graph reachability, CFG dominance",
+   ref="DESIGN.md §4 C04")
+
+
 def main():
     props = [json.loads(l)["id"] for l in open(os.path.join(HERE, "properties.jsonl"))]
     checks = []
